@@ -217,6 +217,10 @@ type Family struct {
 	// others are letters of Ops; prefixes without a compound request are histories of the
 	// full-alphabet family and are not replayed again.
 	Compound []int
+	Sources  []string // nil = every id source
+	// NoLeadingTick: histories do not start with a clock tick (a tick before the first request
+	// only shifts every later instant by the same amount)
+	NoLeadingTick bool
 }
 
 // letters: every letter a history of the family can contain.
@@ -296,6 +300,23 @@ func compoundOps(n int) []int {
 		}
 	}
 	return out
+}
+
+// rotationOps: every id-rotating or lifetime-touching call of one user, through both APIs,
+// to be placed between clock ticks: Regenerate, login (= Regenerate + Set), Reset, Set, a
+// read that does not save (store Get), GetByID; two short ticks (5 s, 7 s; idle 10 s, absolute
+// 12 s) whose sums 10 / 12 / 14 / 15 ... land on, between and beyond both deadlines while a
+// saving request in between keeps the idle timeout from ending the session first.
+func rotationOps(thorough bool) []int {
+	l := []string{
+		"A.mw.set.k1.v1", "A.mw.regen", "A.mw.login.k2.v2", "A.mw.reset",
+		"A.st.get", "A.st.regen", "A.st.login.k2.v2",
+		"adm.getbyid.A",
+		"tick.5", "tick.7"}
+	if thorough {
+		l = append(l, "A.mw.get", "A.st.touch", "A.st.set.k1.v1", "A.st.reset")
+	}
+	return names(l...)
 }
 
 func opNames(idx []int) []string {
@@ -379,6 +400,15 @@ const (
 func (f Family) applies(c Cfg) bool {
 	if f.AbsOnly && !c.Abs {
 		return false
+	}
+	if f.Sources != nil {
+		ok := false
+		for _, s := range f.Sources {
+			ok = ok || s == c.Source
+		}
+		if !ok {
+			return false
+		}
 	}
 	switch f.Ctx {
 	case ctxFresh:
